@@ -118,12 +118,20 @@ type Define struct {
 	Line   int
 }
 
+// UFun is an uninterpreted spec function (e.g. the abstract predicate a callback computes).
+type UFun struct {
+	Name string
+	Args []string
+	Ret  string
+}
+
 type SpecSet struct {
 	Contracts map[string]*Contract
 	Order     []string
 	Ghosts    []GhostDecl
 	Lemmas    []*Lemma
 	Defines   map[string]*Define
+	UFuns     map[string]*UFun
 	Guarded   map[string]string // heap key "T.f" -> mutex field name
 	Trans     map[string]*Transition
 }
@@ -227,6 +235,30 @@ func (ss *SpecSet) parseFile(path string, dep bool) error {
 				return fmt.Errorf("%s:%d: ghost <name> <sort>", path, ln+1)
 			}
 			ss.Ghosts = append(ss.Ghosts, GhostDecl{Name: f[0], Sort: strings.TrimSpace(f[1])})
+		case "ufun":
+			// ufun name (argsort ...) retsort   -- sorts in SMT-LIB syntax
+			op := strings.Index(rest, "(")
+			if op < 0 {
+				return fmt.Errorf("%s:%d: ufun name (argsorts) retsort", path, ln+1)
+			}
+			name := strings.TrimSpace(rest[:op])
+			end := skipSexp(rest, op)
+			argsS := strings.TrimSpace(rest[op+1 : end-1])
+			ret := strings.TrimSpace(rest[end:])
+			var args []string
+			for i := 0; i < len(argsS); {
+				j := skipSexp(argsS, i)
+				a := strings.TrimSpace(argsS[i:j])
+				if a != "" {
+					args = append(args, a)
+				}
+				i = j
+			}
+			if ss.UFuns == nil {
+				ss.UFuns = map[string]*UFun{}
+			}
+			ss.UFuns[name] = &UFun{Name: name, Args: args, Ret: ret}
+			cur = nil
 		case "guarded":
 			// guarded T.failed, T.cleanups by mu
 			i := strings.LastIndex(rest, " by ")
